@@ -166,6 +166,7 @@ struct World {
     tviews: Vec<View>,
     uviews: Vec<UserView>,
     permissive: bool,
+    halves: bool,
 }
 
 fn wu(k: u64) -> Uuid {
@@ -511,6 +512,34 @@ impl World {
             acps.push(AcpSpec { kind: Kind::Create, name: "c24permissive-create".into(), uuid: wu(0x4f1), pres: vec![], rem: vec![], pres_cls: vec![], rem_cls: vec![], c_attrs: all_attrs.clone(), c_classes: all_cls.clone(), ..base.clone() });
             acps.push(AcpSpec { kind: Kind::Delete, name: "c24permissive-delete".into(), uuid: wu(0x4f2), pres: vec![], rem: vec![], pres_cls: vec![], rem_cls: vec![], ..base.clone() });
         }
+        // every fifth world (offset 1): two create profiles for group 0 that cover a plain person only
+        // *together* — `create_filter_entry` wants one single covering profile
+        let halves = widx % 5 == 1;
+        if halves {
+            let base = AcpSpec {
+                kind: Kind::Create,
+                name: "c24half-attrs".into(),
+                uuid: wu(0x4f3),
+                enabled: true,
+                recv: Recv::Groups(vec![groups[0]]),
+                target: Some(Flt::Pres("class".into())),
+                pres: vec![],
+                rem: vec![],
+                legacy_cls: vec![],
+                pres_cls: vec![],
+                rem_cls: vec![],
+                c_attrs: ["class", "name", "uuid", "displayname", "description"].iter().map(|s| s.to_string()).collect(),
+                c_classes: vec!["object".into()],
+            };
+            acps.push(base.clone());
+            acps.push(AcpSpec {
+                name: "c24half-classes".into(),
+                uuid: wu(0x4f4),
+                c_attrs: vec!["class".into()],
+                c_classes: vec!["object".into(), "person".into(), "account".into()],
+                ..base
+            });
+        }
         // a blanket search profile so that impersonated searches find candidates (C23's domain)
         let t2 = t1 + Duration::from_secs(20);
         {
@@ -559,6 +588,7 @@ impl World {
             tviews,
             uviews,
             permissive,
+            halves,
             groups,
             users,
             targets,
